@@ -13,7 +13,7 @@ From Coq Require Import String ZArith QArith Bool Arith List Permutation.
 From GT Require Import Base.UTree Spec.Obs Spec.GenShape Spec.Counting Model.Reroot Model.Rand2 Model.TreeGen
      Proofs.TreeGenNames Proofs.TreeGenMain Proofs.TreeGenLens Proofs.TreeGenCat Proofs.TreeGenBal
      Proofs.TreeGenBal2 Proofs.TreeGenTopo Proofs.TreeGenTopo2
-     Model.Index Proofs.IndexBase Proofs.IndexTree Proofs.TreeGenIndex Proofs.TreeGenPlanted Proofs.Rand2Float.
+     Model.Index Proofs.IndexBase Proofs.IndexTree Proofs.TreeGenIndex Proofs.TreeGenPlanted Proofs.Rand2Float Proofs.StretchFive.
 Import ListNotations.
 Local Close Scope Q_scope.
 
@@ -296,3 +296,45 @@ Theorem C16_float64_retry_threshold :
   N.eqb (round53 (two63 - 513)) two63 = false.
 Proof. exact retry_threshold. Qed.
 Print Assumptions C16_float64_retry_threshold.
+
+(** * the enumerator with caller-supplied tip names: the tips of every tree are exactly the given names *)
+Theorem C16_topologies_unrooted_given_names :
+  forall n names ts, 3 <= n -> length names = n -> all_topologies n false names = Ok ts ->
+    Forall (fun t => wf t = true /\ binary false t = true /\ Permutation (leaves t) names) ts.
+Proof. exact all_topologies_unrooted_given_names. Qed.
+Print Assumptions C16_topologies_unrooted_given_names.
+
+Theorem C16_topologies_rooted_given_names :
+  forall n names ts, 2 <= n -> length names = n -> all_topologies n true names = Ok ts ->
+    Forall (fun t => wf t = true /\ planted t = true /\ Permutation (leaves t) names) ts.
+Proof. exact all_topologies_rooted_given_names. Qed.
+Print Assumptions C16_topologies_rooted_given_names.
+
+(** * the hypotheses are satisfiable (instances computed by vm_compute) *)
+Example C16_example_uniform_bounds :
+  in_bounds [0; 2; 4] (uniform_bounds 5 false) /\ in_bounds [1; 3; 5] (uniform_bounds 5 true) /\
+  in_bounds [1; 2; 3] (yule_bounds 5 true).
+Proof. vm_compute. repeat split; repeat constructor. Qed.
+Print Assumptions C16_example_uniform_bounds.
+
+Example C16_example_uniform_tree :
+  exists t, uniform_tree 5 false [0; 2; 4] [] = GOk t /\ binary false t = true /\
+            ssort (leaves t) = map tip_name (seq 0 5).
+Proof. eexists. vm_compute. repeat split. Qed.
+Print Assumptions C16_example_uniform_tree.
+
+Example C16_example_caterpillar :
+  exists t, caterpillar_tree 6 true [] = GOk t /\ caterpillar t = true /\ binary true t = true.
+Proof. eexists. vm_compute. repeat split. Qed.
+Print Assumptions C16_example_caterpillar.
+
+Example C16_example_balanced :
+  exists t, balanced_tree 3 false [] = GOk t /\ balanced false 3 t = true /\ length (leaves t) = 8.
+Proof. eexists. vm_compute. repeat split. Qed.
+Print Assumptions C16_example_balanced.
+
+Example C16_example_topologies :
+  (exists ts, all_topologies 5 false [] = Ok ts /\ length ts = 15) /\
+  (exists ts, all_topologies 4 true ["a"; "b"; "c"; "d"]%string = Ok ts /\ length ts = 15).
+Proof. split; eexists; vm_compute; split; reflexivity. Qed.
+Print Assumptions C16_example_topologies.
